@@ -64,6 +64,9 @@ ItemExpression * ItemExpression::parse(Parser& p, Context& ctx, Expression * exp
   TokenPtr t = p.pop();
   if (t->code != TOKEN_INTEGER)
     throw ParseError(EXC_PARSE_INV_EXPRESSION, t);
+  /* the rank is a coded value: it must fit the index type */
+  if (t->text.size() > 9)
+    throw ParseError(EXC_PARSE_OUT_OF_INDICE, t->text.c_str(), t);
   unsigned item_no = (unsigned)std::stoul(t->text, nullptr, 10);
   switch (exp_type.major())
   {
